@@ -453,6 +453,24 @@ func c13Run(env *verifsim.Env, raw json.RawMessage) *verifsim.Violation {
 							vio.Key = "paged-revocation-forgets-pull-start"
 						}
 					}
+					// recorded finding: a role the user holds is deleted and, in the same round (between the same two pulls), a
+					// new revision of the document the client holds is written; the document is then visible no more, and
+					// nothing announces it (with the role deleted but the document untouched the revocation is sent)
+					if vio.Key == "" && len(deletedInRound) > 0 {
+						for _, prog := range tasks {
+							for _, op := range prog {
+								if (op.Kind == "doc" || op.Kind == "deldoc" || op.Kind == "grantdoc") && docID(op.Doc) == id {
+									vio.Key = "document-updated-in-the-round-its-role-was-deleted"
+								}
+							}
+						}
+					}
+					// recorded finding: the same round edits a role the user holds and deletes it, other documents are written,
+					// and the pull that follows is paged: the revocation of what the user saw through the role is cut short
+					// (the same history pulled without a limit announces it)
+					if vio.Key == "" && len(deletedInRound) > 0 && p.Limits[rd] > 0 {
+						vio.Key = "paged-pull-after-role-deletion"
+					}
 					// recorded finding: a role is deleted and a document revision written in the same round assigns that
 					// role to the user; what the user saw only through the role's channels is not revoked
 					if vio.Key == "" {
